@@ -92,6 +92,7 @@ fn main() {
         "child" => {
             monitors::c04::child_main(&args[2..]);
         }
+        "debug-reflect" => monitors::c13::debug_reflect(),
         "c20-expected" => {
             let tier = args.get(2).cloned().unwrap_or("quick".into());
             let seed: u64 = args.get(3).and_then(|s| s.parse().ok()).unwrap_or(20261003);
